@@ -1,6 +1,6 @@
 (* C17 — every diagnostic is well-formed, documented, and suppressible by the code it shows. Statements only. *)
 From Coq Require Import List String ZArith Bool.
-From GG Require Import Base.Strs Model.Codes Model.IgnoreSet Model.Config Model.GoAst Model.Annots Model.Analyze Model.Reporter
+From GG Require Import Base.Strs Model.Codes Model.IgnoreSet Model.Config Model.GoTypes Model.GoAst Model.Annots Model.Analyze Model.Impl Model.Reporter
                        Extracted Exec Proofs.CodesProofs Proofs.ReporterProofs Proofs.DiagProofs.
 From GG Require Properties.C07 Properties.C14.
 Import ListNotations.
@@ -15,7 +15,7 @@ Definition cat_is (k : string) (l : list string) : bool :=
   forallb (fun c => match cat_of codes_table c with Some k' => String.eqb k k' | None => false end) l.
 
 Theorem C17_checker_codes_are_table_codes :
-  cat_is "IMM" IMM_CODES && cat_is "CTOR" CTOR_CODES && cat_is "TONL" TONL_CODES && cat_is "PKGO" PKGO_CODES = true.
+  cat_is "IMM" IMM_CODES && cat_is "CTOR" CTOR_CODES && cat_is "TONL" TONL_CODES && cat_is "PKGO" PKGO_CODES && cat_is "IMPL" IMPL_CODES = true.
 Proof. vm_compute. reflexivity. Qed.
 
 Lemma cat_is_spec k l c : cat_is k l = true -> In c l -> cat_of codes_table c = Some k /\ In c table_codes.
@@ -25,10 +25,10 @@ Proof.
   apply cat_of_In in E. destruct E as [row [H1 [H2 H3]]]. unfold table_codes, all_codes. apply in_flat_map. exists row. split; assumption.
 Qed.
 
-Lemma four : cat_is "IMM" IMM_CODES = true /\ cat_is "CTOR" CTOR_CODES = true /\ cat_is "TONL" TONL_CODES = true /\ cat_is "PKGO" PKGO_CODES = true.
+Lemma four : cat_is "IMM" IMM_CODES = true /\ cat_is "CTOR" CTOR_CODES = true /\ cat_is "TONL" TONL_CODES = true /\ cat_is "PKGO" PKGO_CODES = true /\ cat_is "IMPL" IMPL_CODES = true.
 Proof.
   pose proof C17_checker_codes_are_table_codes as H.
-  apply andb_true_iff in H. destruct H as [Ha H4]. apply andb_true_iff in Ha. destruct Ha as [Hb H3]. apply andb_true_iff in Hb. destruct Hb as [H1 H2].
+  apply andb_true_iff in H. destruct H as [H H5]. apply andb_true_iff in H. destruct H as [Ha H4]. apply andb_true_iff in Ha. destruct Ha as [Hb H3]. apply andb_true_iff in Hb. destruct Hb as [H1 H2].
   auto.
 Qed.
 
@@ -38,13 +38,15 @@ Theorem C17_code_from_table_and_checker :
     (In d (x_imm cfg p fs sup) -> cat_of codes_table (d_code d) = Some "IMM" /\ In (d_code d) table_codes) /\
     (In d (x_ctor cfg p fs sup) -> cat_of codes_table (d_code d) = Some "CTOR" /\ In (d_code d) table_codes) /\
     (In d (x_tonl cfg p fs sup) -> cat_of codes_table (d_code d) = Some "TONL" /\ In (d_code d) table_codes) /\
-    (In d (x_pkgo cfg p fs sup) -> cat_of codes_table (d_code d) = Some "PKGO" /\ In (d_code d) table_codes).
+    (In d (x_pkgo cfg p fs sup) -> cat_of codes_table (d_code d) = Some "PKGO" /\ In (d_code d) table_codes) /\
+    (In d (x_impl cfg p sup) -> cat_of codes_table (d_code d) = Some "IMPL" /\ In (d_code d) table_codes).
 Proof.
-  intros cfg p fs sup d. destruct four as (H1 & H2 & H3 & H4). split; [|split; [|split]]; intros H.
+  intros cfg p fs sup d. destruct four as (H1 & H2 & H3 & H4 & H5). split; [|split; [|split; [|split]]]; intros H.
   - apply (cat_is_spec _ _ _ H1). unfold x_imm in H. exact (codes_in_filter _ _ _ (imm_candidates_codes fs (p_path p) _) d H).
   - apply (cat_is_spec _ _ _ H2). unfold x_ctor in H. exact (codes_in_filter _ _ _ (ctor_candidates_codes fs (p_path p) _) d H).
   - apply (cat_is_spec _ _ _ H3). exact (tonl_diags_codes fs (p_path p) sup _ d H).
   - apply (cat_is_spec _ _ _ H4). exact (pkgo_diags_codes fs (p_path p) (p_name p) sup _ d H).
+  - apply (cat_is_spec _ _ _ H5). unfold x_impl in H. exact (codes_in_filter _ _ _ (impl_candidates_codes _ _ _ _) d H).
 Qed.
 
 Theorem C17_every_diagnostic_of_a_run_has_a_table_code :
@@ -52,8 +54,8 @@ Theorem C17_every_diagnostic_of_a_run_has_a_table_code :
 Proof.
   intros cfg p all own ds H d Hd. unfold x_analyze in H. destruct (x_ignore_ops cfg p) as [ops|]; [|discriminate].
   injection H as _ <-.
-  pose proof (C17_code_from_table_and_checker cfg p (x_facts p (x_read_all cfg p) all) (x_suppressed ops) d) as (A & B & C & D).
-  repeat (apply in_app_or in Hd; destruct Hd as [Hd|Hd]); [apply A|apply B|apply C|apply D]; exact Hd.
+  pose proof (C17_code_from_table_and_checker cfg p (x_facts p (x_read_all cfg p) all) (x_suppressed ops) d) as (A & B & C & D & E).
+  repeat (apply in_app_or in Hd; destruct Hd as [Hd|Hd]); [apply E|apply A|apply B|apply C|apply D]; exact Hd.
 Qed.
 
 (* (2) the text: `error: [CODE] message` first, and whenever an excerpt is rendered the last line is the help link of the
